@@ -59,6 +59,27 @@ func vC18Run(op string, a, b *Dense) (interface{}, error) {
 		return a.Add(b)
 	case "AddScalar":
 		return a.AddScalar(2.0, true)
+	// every generated tensor-scalar method has its own body (scalar header borrowed from and returned to a pool)
+	case "SubScalar":
+		return a.SubScalar(2.0, true)
+	case "SubScalar-left":
+		return a.SubScalar(2.0, false)
+	case "MulScalar":
+		return a.MulScalar(2.0, true)
+	case "DivScalar":
+		return a.DivScalar(2.0, true)
+	case "DivScalar-left":
+		return a.DivScalar(2.0, false)
+	case "PowScalar":
+		return a.PowScalar(2.0, true)
+	case "ModScalar":
+		return a.ModScalar(2.0, true)
+	case "GtScalar":
+		return a.GtScalar(2.0, true)
+	case "LteScalar-left":
+		return a.LteScalar(2.0, false)
+	case "ElEqScalar":
+		return a.ElEqScalar(2.0, true, AsSameType())
 	case "Mul":
 		return Mul(a, b)
 	case "Gt":
